@@ -91,6 +91,7 @@ class TalCheck(CheckBase):
                 path = os.path.join(tmpdir, name)
                 s_i, o_i = serialise(tmpl["files"][name],
                                      pretty=case.get("pretty", False),
+                                     seps=case.get("seps", False),
                                      fname=path)
                 if case.get("crlf"):
                     # (a Windows checkout: lines and columns stay the same)
@@ -105,7 +106,8 @@ class TalCheck(CheckBase):
             src = "\n".join(parts)
         else:
             src, occ = serialise(tmpl["tree"],
-                                 pretty=case.get("pretty", False))
+                                 pretty=case.get("pretty", False),
+                                 seps=case.get("seps", False))
             if case.get("crlf"):
                 src = src.replace("\n", "\r\n")
         log.add("src", short_hash(src))
@@ -221,7 +223,8 @@ class TalCheck(CheckBase):
             tmpl = c["tmpl"]
             if "files" in tmpl:
                 return c            # (multi-file sets: keep the seed form)
-            src, _ = serialise(tmpl["tree"], pretty=c.get("pretty", False))
+            src, _ = serialise(tmpl["tree"], pretty=c.get("pretty", False),
+                               seps=c.get("seps", False))
             template = self.compile(src)
             src_plans = self.make_plans(c, tmpl, template)
             c["plans"] = [{"plan": p, "handler": h} for p, h in src_plans]
